@@ -242,7 +242,53 @@ def r15_4(ctx):
            'received from another process pickles by reference again instead of as a private copy')
 
 
+def r15_5(ctx):
+    ctx.rule('R15.5', 'a forked child starts with an empty heap: the first malloc in another process re-runs the whole '
+                      'constructor (new arenas, empty free lists) -- inherited arenas are shared memory, inherited free '
+                      'lists are private copies, so allocating from them hands the same bytes to two processes',
+             floor=3)
+    m = ctx.model
+    ci = m.cls('heap:Heap')
+    ml = ci.methods['malloc']
+    cfg = ml.cfg
+    other = q.outcome_edges(ml, q.eq_text('os.getpid()', 'self._lastpid'), False)
+    q.need(other, 'Heap.malloc does not compare os.getpid() with self._lastpid')
+    reinit = q.nodes_calling(ml, 'self.__init__')
+    allocs = q.nodes_calling(ml, 'self._malloc')
+    q.need(allocs, 'Heap.malloc does not call self._malloc')
+    r = cfg.reach([b for (a, b, l) in other], block_nodes={n.id for n in reinit}, include_src=True, skip_labels=('x',))
+    ok = bool(reinit) and not any(a.id in r for a in allocs)
+    ctx.ob('R15.5', 'malloc:other-process-reinitialises-before-allocating', ok, ml, allocs[0],
+           'under os.getpid() != self._lastpid: self.__init__() before self._malloc()' if ok else
+           'in a forked child malloc allocates from the inherited free lists: parent and child are handed the same '
+           'block of a shared arena for unrelated objects')
+    init = ci.methods['__init__']
+    from .generic import _self_assigned
+    fresh = _self_assigned(init)
+    need = {'_lastpid', '_lock', '_lengths', '_len_to_seq', '_start_to_block', '_stop_to_block', '_allocated_blocks',
+            '_arenas', '_pending_free_blocks'}
+    state = set()
+    for name, fi in ci.methods.items():
+        state |= _self_assigned(fi)
+        for n in walk_own(fi.node):
+            if isinstance(n, ast.Attribute) and isinstance(n.value, ast.Name) and n.value.id == 'self' and \
+                    n.attr.startswith('_') and not isinstance(getattr(ci.methods.get(n.attr), 'node', None), ast.FunctionDef):
+                state.add(n.attr)
+    state = {s for s in state if s not in ci.methods and s not in ci.attrs}
+    missing = sorted(state - fresh)
+    ctx.ob('R15.5', 'Heap.__init__:creates-all-of-the-heap-state', not missing and need <= fresh, init, None,
+           'every instance attribute the heap uses (%d) is created by __init__' % len(state) if not missing else
+           'not re-created by the constructor: %s' % missing)
+    ok = any(ast.unparse(v) == 'os.getpid()' for (dn, t, v) in q.assigns(init, 'self._lastpid') if v is not None)
+    ctx.ob('R15.5', 'Heap.__init__:records-the-owning-process', ok, init, None, 'self._lastpid = os.getpid()')
+
+
 def run(ctx):
+    r15_5(ctx)
+    # "atomic" read-modify-write under get_lock() across processes needs a lock that a forked child does not
+    # believe it already owns
+    from .c17 import semlock_forgets_ownership_in_a_forked_child
+    semlock_forgets_ownership_in_a_forked_child(ctx, 'R15.6')
     r15_1(ctx)
     r15_2(ctx)
     r15_3(ctx)
@@ -256,6 +302,11 @@ def run(ctx):
 _S = 'billiard/sharedctypes.py'
 _H = 'billiard/heap.py'
 MUTANTS = [
+    ('child-keeps-the-inherited-free-lists', _H, "            self.__init__()                     # reinitialize after fork\n",
+     "            self._lastpid = os.getpid()\n            self._lock = threading.Lock()\n            self._allocated_blocks = set()\n", 'R15.5'),
+    ('after-fork-hook-only-for-named-semaphores', 'billiard/synchronize.py',
+     "            if sys.platform != 'win32':\n                def _after_fork(obj):\n                    obj._semlock._after_fork()\n                util.register_after_fork(self, _after_fork)\n\n            if _semname(self._semlock) is not None:\n",
+     "            if _semname(self._semlock) is not None:\n                def _after_fork(obj):\n                    obj._semlock._after_fork()\n                util.register_after_fork(self, _after_fork)\n", 'R15.6'),
     ('rawvalue-no-zero', _S, "    obj = _new_value(type_)\n    ctypes.memset(ctypes.addressof(obj), 0, ctypes.sizeof(obj))\n    obj.__init__(*args)", "    obj = _new_value(type_)\n    obj.__init__(*args)", 'R15.1'),
     ('rawvalue-init-before-zero', _S, "    ctypes.memset(ctypes.addressof(obj), 0, ctypes.sizeof(obj))\n    obj.__init__(*args)\n    return obj", "    obj.__init__(*args)\n    ctypes.memset(ctypes.addressof(obj), 0, ctypes.sizeof(obj))\n    return obj", 'R15.1'),
     ('rawarray-memset-element-count', _S, "        obj = _new_value(type_)\n        ctypes.memset(ctypes.addressof(obj), 0, ctypes.sizeof(obj))\n        return obj", "        obj = _new_value(type_)\n        ctypes.memset(ctypes.addressof(obj), 0, size_or_initializer)\n        return obj", 'R15.1'),
